@@ -184,6 +184,22 @@ pub fn zinc_decode(text: &str) -> Result<Value, Verdict> {
     }
 }
 
+/// Decode through `Parser::make` over a reader that hands the text out in pieces (sizes derived from the text).
+pub fn zinc_decode_in_pieces(text: &str) -> Result<Value, Verdict> {
+    use crate::gen::readers::{PlanReader, ReaderPlan};
+    let k = crate::runner::key_of(text);
+    let plan = ReaderPlan { chunks: vec![1 + (k % 7) as u8, 1 + ((k >> 8) % 61) as u8, 1 + ((k >> 16) % 3) as u8], interrupt_every: ((k >> 24) % 4) as u8, ..ReaderPlan::default() };
+    let r = fueled(text.len(), || {
+        let mut rd = PlanReader::new(text.as_bytes(), &plan);
+        libhaystack::encoding::zinc::decode::parser::Parser::make(&mut rd).and_then(|mut p| p.parse_value())
+    });
+    match r {
+        Ok(Ok(v)) => Ok(v),
+        Ok(Err(e)) => Err(Verdict::fail("reader:decode-error", format!("the text is not decoded from a reader that delivers it in pieces {:?}: {e} (text {:?})", plan.chunks, trunc(text, 200)))),
+        Err(p) => Err(Verdict::fail(format!("reader:decode-{}", panic_sig(&p)), format!("{} at {}", p.msg, p.location))),
+    }
+}
+
 pub fn prefix_sig(prefix: &str, v: Verdict, shape: &str) -> Verdict {
     match v {
         Verdict::Fail { sig, msg } => Verdict::Fail {
